@@ -92,7 +92,7 @@ def spellings():
             d = a[0] if a else k["dim"]
             sz = a[1] if len(a) > 1 else k["unflattened_size"]
             d = d % len(o)
-            return y.flatten(d, d + len(sz) - 1)
+            return y if len(sz) == 1 else y.flatten(d, d + len(sz) - 1)     # flatten over one dim is the identity
         S.append(("unflatten", a, k, bs2, inv))
     for bs3, (a, k) in [((2, 1, 3), ((1,), {})), ((2, 1, 3), ((), {"dim": 1})), ((2, 1, 3), ((-2,), {})), ((2, 1, 3), ((0,), {})),
                         ((1, 2, 1), ((-1,), {})), ((1, 2, 1), ((0,), {})), ((1, 2, 1), ((), {"dim": -3}))]:
@@ -235,6 +235,14 @@ def canon_call(c):
     return [n] + [int(x) for x in a]
 
 
+def _size_len(op, args, kwargs):
+    """length of the unflattened_size argument (signature component of D201)"""
+    if op != "unflatten":
+        return None
+    sz = args[1] if len(args) > 1 else kwargs.get("unflattened_size", ())
+    return len(sz)
+
+
 def main(R):
     torch.set_num_threads(1)
     R.rule = ("every operation registered as invertible x argument spellings (positional / keyword / mixed / negative dims / custom "
@@ -281,6 +289,8 @@ def main(R):
                 "locked": locked, "edit": edit, "key_order": variant, "blocks": repeat}
         spelled = "kw" if kwargs and not args else ("mixed" if kwargs else "pos")
         sig = {"op": op, "spelling": spelled}
+        if op == "unflatten":
+            sig["size_len"] = len(args[1] if len(args) > 1 else kwargs["unflattened_size"])
         R.case((op, repr(args), repr(sorted(kwargs.items())), locked, edit, variant, repeat), nontrivial=edit != "none", sample=case if ci % 97 == 0 else None)
         R.count(f"key-order:{variant}")
         R.count(f"blocks:{repeat}")
@@ -319,6 +329,9 @@ def main(R):
     check_reused_cm(R, sps)
     check_other_containers(R, sps)
     check_locks_and_nesting(R)
+    check_elem(R, ok)
+    check_protocol(R, ok)
+    check_writeback_rule(R, ok)
 
 
 def check_reused_cm(R, sps):
@@ -346,7 +359,7 @@ def check_reused_cm(R, sps):
             g = call(lambda: snap(run_impl(op, args, {}, bs, "value", locked, flat_sep, None, 2, True)[0]))
             sig = {"op": op, "kind": "reused-cm"}
             if g[0] != "ok":
-                R.oracle_fail("writeback:raises", case, {"exception": g[1]}, sig)
+                R.oracle_fail("writeback:raises", case, {"exception": g[1]}, dict(sig, kind="raises", size_len=_size_len(op, args, {})))
             elif g[1]["leaves"] != e[1]["leaves"]:
                 R.oracle_fail("writeback:content", case, {"differing_keys": sorted(k for k in e[1]["leaves"] if g[1]["leaves"].get(k) != e[1]["leaves"][k])[:6]}, sig)
             R.traces += 1
@@ -428,7 +441,7 @@ def check_other_containers(R, sps):
                 g = call(impl)
                 sig = {"op": op, "container": kind, "spelling": "kw" if kwargs and not args else ("mixed" if kwargs else "pos")}
                 if g[0] != "ok":
-                    R.oracle_fail("writeback:raises", case, {"exception": g[1]}, dict(sig, kind="raises"))
+                    R.oracle_fail("writeback:raises", case, {"exception": g[1]}, dict(sig, kind="raises", size_len=_size_len(op, args, kwargs)))
                 elif g[1][0] != e[1] or g[1][1] != list(bs):
                     R.oracle_fail("writeback:content", case, {"batch_size": g[1][1]}, dict(sig, kind="content"))
                 R.traces += 1
@@ -494,10 +507,434 @@ def check_locks_and_nesting(R):
         R.traces += 1
 
 
+# ------------------------------------------------------------------ element maps (Model/C17_Elem.v)
+def _prod(l):
+    n = 1
+    for x in l:
+        n *= x
+    return n
+
+
+def _unravel(sh, k):
+    out = []
+    for i in range(len(sh)):
+        m = _prod(sh[i + 1:])
+        out.append(k // m)
+        k = k % m
+    return out
+
+
+def gen_elem_case(rng):
+    """(op, args, kwargs, bs): random rank / sizes / dims (also out of range) / spelling"""
+    n = rng.choice([1, 2, 2, 3, 3, 3, 4])
+    bs = [rng.choice([1, 2, 2, 3, 3]) for _ in range(n)]
+    if rng.random() < 0.1:
+        bs = rng.choice([[4, 6], [6], [2, 6, 2], [12, 1]])
+        n = len(bs)
+    op = rng.choice(["transpose", "permute", "view", "flatten", "unflatten", "squeeze", "unsqueeze"])
+    dim = lambda hi=None: rng.randint(-(hi or n) - 1, (hi or n))
+    if op == "transpose":
+        a, b = dim(), dim()
+        sp = rng.choice(["pos", "mixed", "kw", "kw-rev", "bad"])
+        if sp == "pos":
+            return op, (a, b), {}, bs
+        if sp == "mixed":
+            return op, (a,), {"dim1": b}, bs
+        if sp == "bad":
+            return op, (a, b), {"dim0": a}, bs
+        return op, (), ({"dim0": a, "dim1": b} if sp == "kw" else {"dim1": b, "dim0": a}), bs
+    if op == "permute":
+        k = n if rng.random() < 0.75 else rng.randint(0, n)
+        p = list(range(k))
+        rng.shuffle(p)
+        p = [d - n if rng.random() < 0.35 else d for d in p]
+        if rng.random() < 0.1 and p:
+            p[rng.randrange(len(p))] = rng.randint(-n - 1, n)
+        sp = rng.choice(["pos", "list", "kw"])
+        if sp == "pos" and p:
+            return op, tuple(p), {}, bs
+        if sp == "list":
+            return op, (list(p),), {}, bs
+        return op, (), {"dims": list(p)}, bs
+    if op == "view":
+        tot = _prod(bs)
+        cands = [[tot], list(bs), list(reversed(bs)), [1, tot], [tot, 1]]
+        for d in range(2, tot):
+            if tot % d == 0:
+                cands.append([d, tot // d])
+                cands.append([d, 1, tot // d])
+        shp = list(rng.choice(cands))
+        r = rng.random()
+        if r < 0.3:
+            shp[rng.randrange(len(shp))] = -1
+        elif r < 0.36:
+            shp = [-1, -1] + shp[1:]
+        elif r < 0.42:
+            shp[0] = shp[0] + 1
+        sp = rng.choice(["pos", "list", "kw", "size"])
+        if sp == "pos":
+            return op, tuple(shp), {}, bs
+        if sp == "list":
+            return op, (list(shp),), {}, bs
+        if sp == "size" and -1 not in shp:
+            return op, (torch.Size(shp),), {}, bs
+        return op, (), {"size": list(shp)}, bs
+    if op == "flatten":
+        a, b = dim(), dim()
+        sp = rng.choice(["pos2", "pos1", "pos1kw", "kw2", "kwa", "kwb", "none"])
+        return {"pos2": (op, (a, b), {}, bs), "pos1": (op, (a,), {}, bs), "pos1kw": (op, (a,), {"end_dim": b}, bs),
+                "kw2": (op, (), {"start_dim": a, "end_dim": b}, bs), "kwa": (op, (), {"start_dim": a}, bs),
+                "kwb": (op, (), {"end_dim": b}, bs), "none": (op, (), {}, bs)}[sp]
+    if op == "unflatten":
+        d = dim()
+        m = bs[d % n] if -n <= d < n else 2
+        cands = [[m], [1, m], [m, 1], [1, m, 1]]
+        for q in range(2, m):
+            if m % q == 0:
+                cands.append([q, m // q])
+        sz = list(rng.choice(cands))
+        r = rng.random()
+        if r < 0.25:
+            sz[rng.randrange(len(sz))] = -1
+        elif r < 0.3:
+            sz[0] += 1
+        sp = rng.choice(["pos", "mixed", "kw"])
+        szv = tuple(sz) if rng.random() < 0.5 else list(sz)
+        if sp == "pos":
+            return op, (d, szv), {}, bs
+        if sp == "mixed":
+            return op, (d,), {"unflattened_size": szv}, bs
+        return op, (), {"dim": d, "unflattened_size": szv}, bs
+    d = dim(n + 1 if op == "unsqueeze" else n)
+    return (op, (d,), {}, bs) if rng.random() < 0.6 else (op, (), {"dim": d}, bs)
+
+
+def _elem_td(bs):
+    tot = _prod(bs)
+    a = torch.arange(tot, dtype=torch.int64).reshape(bs)
+    f = torch.arange(tot * 2, dtype=torch.int64).reshape(*bs, 2)
+    return TensorDict({"a": a, "f": f, "n": {"b": a + 1000}}, batch_size=list(bs))
+
+
+def _scatter(pushes, ysh):
+    """the tensor of shape ysh holding at position push(k) the source's row-major position k (None if not a bijection)"""
+    tot = _prod(ysh)
+    if len(pushes) != tot:
+        return None
+    out = torch.full((tot,), -1, dtype=torch.int64)
+    for k, j in enumerate(pushes):
+        if j is None or j == "none" or len(j[1]) != len(ysh):
+            return None
+        pos = 0
+        for x, s in zip(j[1], ysh):
+            if not 0 <= x < s:
+                return None
+            pos = pos * s + x
+        if out[pos] != -1:
+            return None
+        out[pos] = k
+    return out.reshape(ysh)
+
+
+def run_elem_case(op, args, kwargs, bs, locked):
+    """real code: forward shape / element map; then a block that overwrites every leaf of the yielded object with a
+    position-identifying content; what the original holds afterwards"""
+    obs = {}
+    td = _elem_td(bs)
+    fw = call(lambda: getattr(td, op)(*args, **kwargs))
+    if fw[0] != "ok":
+        return {"fwd": "raise", "exc": fw[1]}
+    y = fw[1]
+    ysh = [int(x) for x in y.batch_size]
+    obs["fwd"] = "ok"
+    obs["ysh"] = ysh
+    obs["ya"] = y.get("a").reshape(-1).tolist()
+    obs["yf_ok"] = bool((y.get("f").reshape(-1, 2)[:, 0] == 2 * y.get("a").reshape(-1)).all()) and \
+        bool((y.get(("n", "b")) == y.get("a") + 1000).all())
+    td = _elem_td(bs)
+    if locked:
+        td.lock_()
+    tot = _prod(ysh)
+    W = torch.arange(tot, dtype=torch.int64).reshape(ysh) + 5000
+
+    def block():
+        with getattr(td, op)(*args, **kwargs) as yy:
+            if locked:
+                yy.set_("a", W.clone())
+            else:
+                yy.set("a", W.clone())
+        return td
+    r = call(block)
+    if r[0] != "ok":
+        obs["block"] = "raise"
+        obs["exc"] = r[1]
+        return obs
+    obs["block"] = "ok"
+    obs["after_bs"] = [int(x) for x in td.batch_size]
+    obs["after_a"] = td.get("a").reshape(-1).tolist() if list(td.get("a").shape) == list(bs) else None
+    again = call(lambda: getattr(td, op)(*args, **kwargs).get("a"))
+    obs["oracle"] = again[0] == "ok" and list(again[1].shape) == ysh and bool((again[1] == W).all()) \
+        and obs["after_bs"] == list(bs) and bool((td.get("f") == _elem_td(bs).get("f")).all())
+    return obs
+
+
+def check_elem(R, ok):
+    n_cases = 700 if R.quick else 12000
+    cases = []
+    seen = set()
+    while len(cases) < n_cases:
+        c = gen_elem_case(R.rng)
+        key = (c[0], repr(c[1]), repr(sorted(c[2].items())), tuple(c[3]))
+        if key in seen and R.rng.random() < 0.9:
+            continue
+        seen.add(key)
+        cases.append(c)
+    lines = [sx([Sym("elem"), Sym(op), [val_sx(a) for a in args], [[k, val_sx(v)] for k, v in sorted(kwargs.items())], list(bs)])
+             for (op, args, kwargs, bs) in cases]
+    mres = R.model(lines) if ok else [None] * len(lines)
+    for ci, (op, args, kwargs, bs) in enumerate(cases):
+        locked = bool(ci % 2)
+        case = {"op": op, "args": canon_val(list(args)), "kwargs": {k: canon_val(v) for k, v in kwargs.items()}, "bs": list(bs),
+                "locked": locked, "stream": "elem"}
+        obs = run_elem_case(op, args, kwargs, bs, locked)
+        R.case(("elem", op, repr(args), repr(sorted(kwargs.items())), tuple(bs), locked), nontrivial=obs["fwd"] == "ok",
+               sample=case if ci % 211 == 0 else None)
+        R.count(f"elem:{op}")
+        R.count(f"elem:rank{len(bs)}")
+        R.count("elem:fwd-" + obs["fwd"])
+        R.traces += 1
+        sizelen = None
+        if op == "unflatten":
+            sz = args[1] if len(args) > 1 else kwargs.get("unflattened_size", ())
+            sizelen = len(sz)
+        sig = {"op": op, "stream": "elem"}
+        if obs["fwd"] == "ok":
+            if obs.get("block") == "raise":
+                R.oracle_fail("elem:block-raises", case, {"exception": obs["exc"]}, dict(sig, kind="raises", size_len=sizelen))
+            elif not obs["oracle"]:
+                R.oracle_fail("elem:roundtrip", case, {"after_bs": obs["after_bs"]}, dict(sig, kind="content"))
+            if not obs["yf_ok"]:
+                R.oracle_fail("elem:leaves-disagree", case, {}, dict(sig, kind="leaves"))
+        m = mres[ci]
+        if m is None:
+            continue
+        if obs["fwd"] != "ok":
+            if not (m == "badcall" or (isinstance(m, list) and m[0] == "fwdraise")):
+                R.mismatch("elem-forward", case, "raise:" + obs.get("exc", ""), m if not isinstance(m, list) else m[:3])
+            continue
+        if not (isinstance(m, list) and m[0] == "ok"):
+            R.mismatch("elem-forward", case, {"ysh": obs["ysh"]}, m)
+            continue
+        _, c, ysh, pushes, r, rsh, rpushes = m
+        exp = _scatter(pushes, obs["ysh"]) if ysh == obs["ysh"] else None
+        if exp is None or exp.reshape(-1).tolist() != obs["ya"]:
+            R.mismatch("elem-forward-map", case, {"ysh": obs["ysh"], "ya": obs["ya"][:12]}, {"call": c, "ysh": ysh})
+            continue
+        if obs.get("block") == "raise":
+            if rsh != "none":
+                R.mismatch("elem-reverse", case, "raise:" + obs["exc"], {"reverse": r, "shape": rsh})
+            continue
+        if rsh == "none" or rsh[1] != obs["after_bs"]:
+            R.mismatch("elem-reverse", case, {"after_bs": obs["after_bs"]}, {"reverse": r, "shape": rsh})
+            continue
+        back = _scatter(rpushes, list(bs))
+        want = None if back is None else (back + 5000).reshape(-1).tolist()
+        if want != obs["after_a"]:
+            R.mismatch("elem-reverse-map", case, {"after_a": (obs["after_a"] or [])[:12]}, {"reverse": r, "want": (want or [])[:12]})
+
+
+# ------------------------------------------------------------------ the protocol itself (Model/C17_Ctx.v)
+class _BaseExc(BaseException):
+    pass
+
+
+def gen_prog(rng, depth):
+    r = rng.random()
+    if depth <= 0 or r < 0.12:
+        return rng.choice(["skip", "skip", ["raise", "exception"], ["raise", "base"]]) if rng.random() < 0.5 else "skip"
+    if r < 0.3:
+        return ["seq", gen_prog(rng, depth - 1), gen_prog(rng, depth - 1)]
+    if r < 0.6:
+        return ["lock", gen_prog(rng, depth - 1)]
+    if r < 0.9:
+        return ["unlock", gen_prog(rng, depth - 1)]
+    return ["bare", gen_prog(rng, depth - 1)]
+
+
+def prog_sx(p):
+    if isinstance(p, str):
+        return Sym(p)
+    return [Sym(p[0])] + [prog_sx(x) if not isinstance(x, str) or x in ("skip",) else Sym(x) for x in p[1:]]
+
+
+def prog_depth(p):
+    if isinstance(p, str) or p[0] == "raise":
+        return 0
+    if p[0] == "seq":
+        return max(prog_depth(p[1]), prog_depth(p[2]))
+    return 1 + prog_depth(p[1])
+
+
+def exec_prog(p, td):
+    """interprets the program as real nested `with` statements on td; returns the pending exception kind"""
+    if p == "skip":
+        return
+    if p[0] == "raise":
+        raise (ValueError("body") if p[1] == "exception" else _BaseExc())
+    if p[0] == "seq":
+        exec_prog(p[1], td)
+        exec_prog(p[2], td)
+        return
+    cm = td.lock_() if p[0] == "lock" else td.unlock_() if p[0] == "unlock" else td
+    with cm:
+        exec_prog(p[1], td)
+
+
+def lastop_name(td):
+    lo = getattr(td, "_last_op", None)
+    return None if lo is None else lo[0]
+
+
+def run_protocol_case(locked, lo_kind, p):
+    keep = base((2, 3))
+    if lo_kind == "none":
+        td = keep.unlock_()      # a fresh TensorDict has no _last_op attribute at all; the wrapper sets it to None here
+    elif lo_kind == "alive":
+        td = keep.transpose(0, 1)
+    else:
+        td = base((2, 3)).transpose(0, 1)     # the original dies at once
+        import gc
+        gc.collect()
+    if locked:
+        # not through the decorated lock_(): the recorded op must stay what it is
+        td._propagate_lock(is_compiling=False)
+    pending = "none"
+    try:
+        exec_prog(p, td)
+    except ValueError:
+        pending = "exception"
+    except _BaseExc:
+        pending = "base"
+    except RuntimeError as e:
+        # a pending non-Exception BaseException is replaced by bool(tensordict)'s RuntimeError (see Model/C17_Ctx.v::after_exit)
+        pending = "exception" if "boolean" in str(e) else "crash:RuntimeError"
+    except AttributeError:
+        return "fail", td, keep
+    q = getattr(td, "_last_op_queue", [])
+    return ["ok", [bool(td.is_locked), lastop_name(td), [None if x is None else x[0] for x in q]], pending], td, keep
+
+
+def check_protocol(R, ok):
+    """random programs of nested lock_/unlock_/bare blocks with raises, on a fresh tensordict, on a yielded object whose
+    original is alive and on one whose original is dead: lock flag, _last_op, _last_op_queue, pending exception"""
+    n = 400 if R.quick else 6000
+    cases = []
+    for _ in range(n):
+        cases.append((R.rng.random() < 0.5, R.rng.choice(["none", "none", "alive", "dead"]), gen_prog(R.rng, R.rng.randint(1, 6))))
+    lines = [sx([Sym("runprog"), bool(lk), Sym("none") if lo == "none" else [Sym("shape"), Sym("transpose"), lo == "alive"], prog_sx(p)])
+             for (lk, lo, p) in cases]
+    mres = R.model(lines) if ok else [None] * len(lines)
+    for ci, (lk, lo, p) in enumerate(cases):
+        case = {"op": "protocol", "stream": "protocol", "locked": lk, "last_op": lo, "prog": p}
+        R.case(("protocol", lk, lo, json.dumps(p)), nontrivial=p != "skip", sample=case if ci % 131 == 0 else None)
+        R.count(f"protocol:depth{min(prog_depth(p), 6)}")
+        R.count("protocol:last_op-" + lo)
+        R.traces += 1
+        try:
+            obs, td, keep = run_protocol_case(lk, lo, p)
+        except BaseException as e:  # noqa: BLE001
+            obs, td = "crash:" + type(e).__name__, None
+        uses_bare = "bare" in json.dumps(p)
+        # oracle (no model): blocks made of lock_/unlock_ only leave the lock flag and the queue as they were
+        if obs != "fail" and not isinstance(obs, str) and not uses_bare:
+            if obs[1][0] != lk or obs[1][2] != []:
+                R.oracle_fail("protocol:lock-not-reverted", case, {"locked_after": obs[1][0], "queue": obs[1][2]},
+                              {"op": "protocol", "kind": "lock-not-reverted"})
+        if isinstance(obs, str) and obs.startswith("crash"):
+            R.oracle_fail("protocol:crash", case, {"exception": obs}, {"op": "protocol", "kind": "crash"})
+        m = mres[ci]
+        if m is None:
+            continue
+        mm = m
+        if isinstance(m, list) and m[0] == "ok":
+            lo_m = m[1][1]
+            mm = ["ok", [m[1][0] == "t", None if lo_m == "none" else lo_m[1], [None if x == "none" else x[1] for x in m[1][2]]], m[2]]
+        if mm != obs:
+            R.mismatch("protocol", case, obs, mm)
+
+
+def run_writeback_case(locked, out_keys, inv_keys):
+    out = TensorDict({k: torch.full((2,), 10 + i, dtype=torch.int64) for i, k in enumerate(out_keys)}, batch_size=[2])
+    inv = TensorDict({k: torch.full((2,), 500 + i, dtype=torch.int64) for i, k in enumerate(inv_keys)}, batch_size=[2])
+    ids = {out.get(k).data_ptr(): i for i, k in enumerate(out_keys)}
+    ids.update({inv.get(k).data_ptr(): 100 + i for i, k in enumerate(inv_keys)})
+    if locked:
+        out.lock_()
+    r = call(lambda: out.update_(inv) if locked else out.update(inv, inplace=False))
+    if r[0] != "ok":
+        return "raise"
+    return [[k, [ids.get(out.get(k).data_ptr(), -1), int(out.get(k)[0])]] for k in out.keys()]
+
+
+def check_writeback_rule(R, ok):
+    """the write-back rule of every _reverse_* function on flat key sets: update_ (locked) / update(inplace=False)"""
+    names = ["a", "b", "c", "d", "e"]
+    cases = []
+    for _ in range(150 if R.quick else 2000):
+        ok_keys = [k for k in names if R.rng.random() < 0.5]
+        R.rng.shuffle(ok_keys)
+        iv = [k for k in names if R.rng.random() < 0.45]
+        R.rng.shuffle(iv)
+        cases.append((R.rng.random() < 0.5, ok_keys, iv))
+    ent = lambda keys, base_id, base_c: [[k, [base_id + i, base_c + i]] for i, k in enumerate(keys)]
+    lines = [sx([Sym("writeback"), bool(lk), ent(o, 0, 10), ent(i, 100, 500)]) for (lk, o, i) in cases]
+    mres = R.model(lines) if ok else [None] * len(lines)
+    for ci, (lk, o, i) in enumerate(cases):
+        case = {"op": "writeback-rule", "stream": "writeback", "locked": lk, "out": o, "inv": i}
+        new = [k for k in i if k not in o]
+        R.case(("writeback-rule", lk, tuple(o), tuple(i)), nontrivial=bool(i))
+        R.count("writeback-rule:" + ("locked" if lk else "unlocked") + ("+new" if new else ""))
+        R.traces += 1
+        obs = run_writeback_case(lk, o, i)
+        if obs != "raise":
+            keys = [x[0] for x in obs]
+            if lk and (keys != o or any(x[1][0] != n for n, x in enumerate(obs))):
+                R.oracle_fail("writeback-rule:locked-not-in-place", case, {"after": obs}, {"op": "writeback-rule", "kind": "inplace"})
+            if not lk and keys != o + new:
+                R.oracle_fail("writeback-rule:unlocked-keys", case, {"after": obs}, {"op": "writeback-rule", "kind": "keys"})
+        elif not lk:
+            R.oracle_fail("writeback-rule:unlocked-raises", case, {}, {"op": "writeback-rule", "kind": "raises"})
+        m = mres[ci]
+        if m is None:
+            continue
+        mm = "raise" if m == "none" else m[1]
+        if mm != obs:
+            R.mismatch("writeback-rule", case, obs, mm)
+
+
+def replay_protocol(c):
+    obs = run_protocol_case(c["locked"], c["last_op"], c["prog"])[0]
+    print("implementation:", json.dumps(obs))
+    return 0
+
+
+def replay_elem(c):
+    args = tuple(tuple(a) if isinstance(a, list) else a for a in c["args"])
+    print("implementation:", json.dumps(run_elem_case(c["op"], args, c["kwargs"], c["bs"], c["locked"]), default=str))
+    return 0
+
+
 def replay(body):
     c = body["case"]
     print(json.dumps(c))
     print(json.dumps(body.get("detail"), default=str))
+    if c.get("stream") == "elem":
+        return replay_elem(c)
+    if c.get("stream") == "protocol":
+        return replay_protocol(c)
+    if c.get("stream") == "writeback":
+        print("implementation:", json.dumps(run_writeback_case(c["locked"], c["out"], c["inv"])))
+        return 0
     if c["op"] in ("nested-blocks", "lock_", "unlock_"):
         return 0
     sp = [s for s in spellings() if s[0] == c["op"] and canon_val(list(s[1])) == c["args"] and {k: canon_val(v) for k, v in s[2].items()} == c["kwargs"]]
